@@ -390,7 +390,8 @@ class Analysis:
                 for (label, m) in g.succ[nid]:
                     if label == 'exc' and not follow_exc:
                         continue
-                    s2 = out
+                    # an exception raised while evaluating the statement: its effect did not happen
+                    s2 = st if label == 'exc' else out
                     if n.kind == 'cond' and label in ('T', 'F'):
                         s2 = self.refine(n.ast, label == 'T', out, n.frame)
                         if s2 is None:
